@@ -130,7 +130,10 @@ def odd_bank(r, coll_name, bank, occ):
     if odd and r.random() < 0.75:
         return re.sub(r"[^A-Za-z0-9_]", "_", r.choice(odd))
     k = weighted_choice(r, [("colon", 5), ("colon2", 3), ("dash", 1), ("own_name", 1), ("keyword", 1), ("long", 1), ("upper", 1),
-                            ("lower", 1), ("digit", 1)])
+                            ("lower", 1), ("digit", 1), ("substvar", 2)])
+    if k == "substvar":
+        # the words the fetch code itself uses as placeholders / temporaries: a bank may be called like that
+        return r.choice(["result", "collection_name", bank + ".result", "result.v2", "collection_name:result"])
     if k == "colon":
         return bank + ":" + r.choice(["x", "PAT", "1"])
     if k == "colon2":
